@@ -55,10 +55,10 @@ Proof.
   destruct e as [| | |t' C0|t' C0|t' v|t' v| | |]; cbn; try exact I.
   - intros ->. exact Hok.
   - intros ->. apply (reconcile_putcfg candidate candidate_rb rollback_of overlay commit_merge payload record_applied touched restore
-                        resync_payload doc_ok stamp nil nil nil) in He. destruct He as (C & _ & HC & _). congruence.
+                        resync_payload doc_ok stamp nil nil nil) in He. destruct He as (C & c0 & HC & _). assert (Hx : Some C = None) by (rewrite <- HC; exact Hn). discriminate Hx.
   - intros ->. destruct c as [i|[t0 i]|t0|t0|cc].
     + pose proof (rec_tx_tp stamp w i) as Hf. rewrite List.Forall_forall in Hf. exact (Hf _ He).
-    + apply rec_prop_putvalues in He. destruct He as (C & HC). congruence.
+    + apply rec_prop_putvalues in He. destruct He as (C & HC). assert (Hx : Some C = None) by (rewrite <- HC; exact Hn). discriminate Hx.
     + unfold p2_reconcile in He. cbn [Proto2.reconcile] in He. unfold Proto2.rec_cfg, Proto2.upd_status in He. revert He.
       destruct_matches; intros He; cbn [fst] in He; try (apply in_app_or in He; destruct He as [He|He]);
         cbn [In] in He; repeat (destruct He as [He|He]; [discriminate He|]); try (destruct He).
@@ -69,7 +69,7 @@ Proof.
     + apply rec_master_only_putcfg in He. destruct He.
     + apply rec_conn_only_rel in He. destruct He.
   - intros ->. apply (reconcile_putavalues candidate candidate_rb rollback_of overlay commit_merge payload record_applied touched restore
-                        resync_payload doc_ok stamp nil nil nil) in He. destruct He as (C & HC & _). congruence.
+                        resync_payload doc_ok stamp nil nil nil) in He. destruct He as (C & HC & _). assert (Hx : Some C = None) by (rewrite <- HC; exact Hn). discriminate Hx.
 Qed.
 
 Lemma fold_nocfg t (es : list Eff) : forall w : Wd,
@@ -141,11 +141,11 @@ Section Run.
         rewrite firstn_all in H. exact H.
       + intros t C' HC'. destruct (cfgs w !! t) as [C|] eqn:HC.
         * pose proof (cfg_fold dev_apply nil (fst (p2_reconcile o w c)) t w C HC) as Hf.
-          unfold p2_reconcile in *. rewrite Hf in HC'. injection HC' as <-.
-          apply (reconcile_dyn Lf o w c t C HS HC (HD t C HC)).
+          assert (Hq : Some C' = Some (fold_left (cfg_on t) (fst (p2_reconcile o w c)) C)) by (rewrite <- HC'; exact Hf).
+          injection Hq as ->. apply (reconcile_dyn Lf o w c t C HS HC (HD t C HC)).
         * destruct (fold_nocfg t (fst (p2_reconcile o w c)) w (or_introl HC) (reconcile_nocfg Lf o w c t HC Hok)) as [Hn|(C0 & H0 & He)].
-          -- unfold p2_apply_eff, p2_reconcile in *. congruence.
-          -- unfold p2_apply_eff, p2_reconcile in *. rewrite H0 in HC'. injection HC' as <-. apply dyn_empty. exact He.
+          -- assert (Hq : Some C' = None) by (rewrite <- HC'; exact Hn). discriminate Hq.
+          -- assert (Hq : Some C' = Some C0) by (rewrite <- HC'; exact H0). injection Hq as ->. apply dyn_empty. exact He.
     - destruct (conns w !! c); [exact HI|]. apply (inv_env w); try reflexivity; [apply (si_next Lf w HS)|apply (si_tx Lf w HS)|exact HI].
     - apply (inv_env w); try reflexivity; [apply (si_next Lf w HS)|apply (si_tx Lf w HS)|exact HI].
     - destruct (rels w !! c); [exact HI|]. apply (inv_env w); try reflexivity; [apply (si_next Lf w HS)|apply (si_tx Lf w HS)|exact HI].
